@@ -352,6 +352,17 @@ def _probe_reason(sc, o):
     return bad
 
 
+def _probe_abort_status(sc, o):
+    """a pause in a non-resumable section with a run still open when the plan ends: the engine-closed RunStop says 'abort'"""
+    bad = []
+    if sc.get("fault", {}).get("how") == "pause-message-resumable":
+        return bad
+    for d in o["docs"]:
+        if d["k"] == "stop" and d["run"] in o.get("engine_closed", []) and d["exit"] != "abort":
+            bad.append(("engine-closed-run-not-abort:pause-in-non-resumable-section", f"{d['run']} was closed by the engine with exit_status {d['exit']!r} after a pause in a non-resumable section ({sc['fault']})"))
+    return bad
+
+
 PROBE_JUDGES = [FP.every_run_closed_once, _probe_reason]
 
 
@@ -363,6 +374,7 @@ def run(ctx, model=True):
     res = E.run_property(ctx, "C02", oracle, gen=gen, quick=100, thorough=1500, model=model, extra_scenarios=extra)
     RP.add_to(res, ["run-wrapper-exception"])
     FP.run_probes(ctx, res, PROBE_JUDGES, ["close"], 20, 400)
+    FP.run_probes(ctx, res, [FP.ends_usable, FP.every_run_closed_once, _probe_abort_status], ["async-stop"], 12, 120)
     return res
 
 
@@ -375,5 +387,7 @@ def replay(ctx, data):
     if r is not None:
         return r
     if FP.is_probe(data):
+        if (data.get("case") or {}).get("tag") == "fault-probe:async-stop":
+            return FP.replay_probe(ctx, data, [FP.ends_usable, FP.every_run_closed_once, _probe_abort_status])
         return FP.replay_probe(ctx, data, PROBE_JUDGES)
     return E.replay_property(ctx, data, oracle)
